@@ -10,6 +10,7 @@ import SlotVerif.Driver.EvDrv
 import SlotVerif.Driver.RunnerDrv
 import SlotVerif.Driver.ProofDrv
 import SlotVerif.Driver.UfwDrv
+import SlotVerif.Driver.GrpwDrv
 /-! `svdriver`: reads one case per line `<suite> <body>`, prints one answer line per case. -/
 open SV.Drv
 
@@ -31,6 +32,7 @@ def dispatch (line : String) : String :=
     | "expl" => explRun body
     | "prog" => progRun body
     | "ufw" => ufwRun body
+    | "grpw" => grpwRun body
     | "snap" => snapRun body
     | "ev" => evRun body
     | "runner" => runnerRun body
